@@ -126,3 +126,74 @@ func vh_C09_L4_write_failure() {
 	vassert(vLocksFree(a, nil), "no lock is left held")
 	vcover("end")
 }
+
+// C09.L5: Abort returns promptly even when the ABORT can never be written: the reader has
+// already ended (transport failure, or Close ran first) and no writer is left to signal
+// that the ABORT went out. Both bounded waits of Abort must time out; nothing is written.
+func vh_C09_L5_abort_returns_without_writer() {
+	a, conn, _ := vTeardownPreState()
+	conn.failReads = true
+	if vPick(2) == 1 {
+		_ = a.close()
+	}
+	a.readLoop()
+	a.writeLoop()
+	writes := conn.writes
+	vMustNotBlock("Abort returns although the ABORT is never written (reader and writer already gone)")
+	a.Abort("going away")
+	vMayBlock()
+	vassert(conn.writes == writes, "nothing more is written to the connection after the teardown")
+	vassert(a.getState() == closed, "still closed")
+	vassert(vLocksFree(a, nil), "no lock is left held")
+	vcover("end")
+}
+
+// C09.L6: every point at which the read loop can park inside a handler is released by
+// Close. The handshake result is handed to the connect call through an unbuffered channel;
+// when that call has gone away (cancelled) and Close has run, completeHandshake must give
+// up instead of waiting for a receiver.
+func vh_C09_L6_parked_handshake_handler_released_by_close() {
+	a := vHandshakeEndpoint(vPick(2) == 1, false)
+	a.handshakeCompletedCh = make(chan error) // nobody is receiving any more
+	if vPick(2) == 1 {
+		a.initClient()
+	} else {
+		a.initServer()
+	}
+	_ = a.close()
+	vMustNotBlock("a read loop parked in completeHandshake is released by Close")
+	sent := a.completeHandshake(nil)
+	vMayBlock()
+	vassert(!sent, "the result is not delivered to anybody")
+	vcover("end")
+}
+
+// C09.L7: every reader blocked on a stream is woken by the teardown, not just one of them.
+func vh_C09_L7_every_blocked_reader_is_woken() {
+	a, conn, streams := vTeardownPreState()
+	if len(streams) == 0 {
+		vcover("end")
+		return
+	}
+	s := streams[0]
+	nReaders := 1 + vPick(3)
+	vCondPark(s.readNotifier, nReaders)
+	switch vPick(3) {
+	case 0: // transport failure
+		conn.failReads = true
+		a.readLoop()
+	case 1: // ABORT from the peer
+		abort := &chunkAbort{errorCauses: []errorCause{&errorCauseUserInitiatedAbort{upperLayerAbortReason: nondetBytes(2)}}}
+		raw, _ := (&packet{verificationTag: a.myVerificationTag, sourcePort: 5000, destinationPort: 5000, chunks: []chunk{abort}}).marshal(true)
+		conn.inbound = [][]byte{raw}
+		conn.failReads = true
+		a.readLoop()
+	case 2: // Close
+		conn.failReads = true
+		_ = a.close()
+		a.readLoop()
+	}
+	vassert(s.readErr != nil, "the stream carries the teardown error")
+	vassert(vCondParked(s.readNotifier) == 0, "every reader blocked on the stream is woken by the teardown")
+	vcover("end")
+}
